@@ -151,10 +151,10 @@ Proof.
 Qed.
 
 Lemma attributes_init_ok h :
-  (sh_offset h <? zlen img) && at_ img (sh_offset h) [65] = true ->
+  (sh_offset h <? zlenT img) && at_ img (sh_offset h) [65] = true ->
   attributes_init EF (exp_shdr s h) = Ok tt.
 Proof.
-  intros H. apply andb_prop in H. destruct H as [Hlt Hat].
+  intros H. apply andb_prop in H. destruct H as [Hlt Hat]. rewrite zlenT_eq in Hlt.
   apply at_skipn in Hat. destruct Hat as [Hpos [t Ht]].
   unfold attributes_init. cbn [ef_core exp_file]. rewrite shdr_get_offset.
   change (c_img C) with img. change (c_le C) with (i_le s).
